@@ -131,6 +131,9 @@ type sideCfg struct {
 	ver    uint32
 	compat []uint32
 	client string
+	// service: drive the public secureservice path instead of the handshake functions directly
+	service bool
+	svc     svcMode
 }
 
 func (c sideCfg) wire(w *world) string {
@@ -173,6 +176,8 @@ type sideRun struct {
 	pan    any
 	fed    []byte
 	end    string // eof | stall
+	// public path (secureservice through app.App): context attachments
+	ctxPeerBad string
 }
 
 func (w *world) start(cfg sideCfg, chunky bool) *sideRun {
@@ -184,6 +189,10 @@ func (w *world) start(cfg sideCfg, chunky bool) *sideRun {
 		// Ed25519 is deterministic: this is the very signature the real side will present
 		w.sign(cfg.acct, cfg.lp+cfg.rp)
 	}
+	var viaService func() (hs.Result, error)
+	if cfg.service {
+		viaService = w.prepareService(cfg, s, cfg.svc)
+	}
 	go func() {
 		defer close(s.done)
 		defer func() {
@@ -191,7 +200,9 @@ func (w *world) start(cfg sideCfg, chunky bool) *sideRun {
 				s.pan = p
 			}
 		}()
-		if cfg.role == "out" {
+		if viaService != nil {
+			s.res, s.err = viaService()
+		} else if cfg.role == "out" {
 			s.res, s.err = hs.OutgoingHandshake(s.ctx, s.c, cfg.rp, cc)
 		} else {
 			s.res, s.err = hs.IncomingHandshake(s.ctx, s.c, cfg.rp, cc)
@@ -603,6 +614,12 @@ func (w *world) judge(stream string, s *sideRun, hung bool) (obs string) {
 		return
 	}
 	l := w.sideLegit(s.cfg, s.fed)
+	if s.ctxPeerBad != "" {
+		r.Violate("C14", "", stream+".ctx-peer", s.ctxPeerBad, ops)
+	}
+	if s.cfg.service {
+		r.Count("via-service." + s.cfg.role)
+	}
 	if s.err == nil {
 		switch {
 		case !l.ok:
@@ -991,6 +1008,11 @@ func (w *world) runPair(stream string, oc, ic sideCfg, m mutation, cancelAt int,
 		// a finished side that failed: its caller closes the connection, the peer sees EOF
 		for k := 0; k < 2; k++ {
 			if sides[k].finished() && (sides[k].err != nil || sides[k].c.isClosed()) && !cutTo[1-k] && !sides[1-k].finished() {
+				if sides[k].c.untaken() || len(pending[k]) > 0 {
+					// it finished after this round's forwarding: deliver its last frames first
+					moved = true
+					continue
+				}
 				cutTo[1-k] = true
 				sides[1-k].feedEOF()
 				moved = true
@@ -1277,6 +1299,9 @@ func (w *world) rawRandom() {
 		role = "out"
 	}
 	victim := w.randSide(role)
+	if serviceable(victim) && r.Chance(25) {
+		victim.service, victim.svc = true, svcMode{r.Chance(50)}
+	}
 	good := r.Chance(55)
 	cs := w.randCredSpec(victim, good)
 	credF := frame(1, cs.bytes())
@@ -1591,6 +1616,12 @@ func Run(r *corr.Run) {
 				} else {
 					ic.rp = peerPool[r.Intn(len(peerPool))]
 				}
+			}
+			if serviceable(oc) && serviceable(ic) && r.Chance(50) {
+				// the public path: one secure service per side, built through app.App
+				oc.service, ic.service = true, true
+				oc.svc, ic.svc = svcMode{r.Chance(50)}, svcMode{r.Chance(50)}
+				r.Count("pair.via-service")
 			}
 			w.honestPair(oc, ic)
 		case k < 9:
